@@ -21,7 +21,7 @@ pub open spec fn tuple_ok(t: (u32, u32, u32, u32, u32, u32), w: int, p1: int) ->
 // per-row facts of the systematic-index table (K-TAB / V-TAB) used here
 pub open spec fn amat_consts(k: int) -> bool {
     let kp = kprime_of(k); let s = s_of(k); let h = h_of(k); let w = w_of(k); let p = p_of(k); let p1 = p1_of(k);
-    &&& k <= kp <= 56403 && 2 <= s && s < w && 1 <= h && 2 <= p && p <= p1 && p1 <= p + 13
+    &&& k <= kp <= 56403 && 2 <= s && s < w && 17 <= w && 1 <= h && 2 <= p && p <= p1 && p1 <= p + 13 && 11 <= p1 && 0 <= j_of(k) <= 1000
     &&& kp + s + h == w + p && w + p < 65536
     // the look-ups keyed by K' hit the same table row as those keyed by K
     &&& kprime_of(kp) == kp && w_of(kp) == w && p_of(kp) == p && p1_of(kp) == p1 && j_of(kp) == j_of(k)
@@ -168,7 +168,7 @@ pub struct DenseOctetMatrix { _p: () }
 fn generate_hdpc_rows(Kprime: usize, S: usize, H: usize) -> DenseOctetMatrix { unimplemented!() }
 #[verifier::external_body]
 pub fn intermediate_tuple(internal_symbol_id: u32, lt_symbols: u32, systematic_index: u32, p1: u32) -> (r: (u32, u32, u32, u32, u32, u32))
-    requires lt_symbols >= 2, p1 >= 2,
+    requires lt_symbols >= 17, systematic_index <= 1000, p1 >= 11,     // exactly the precondition under which V-RNG proves it
     ensures r == tuple_of(internal_symbol_id as int, lt_symbols as int, systematic_index as int, p1 as int), tuple_ok(r, lt_symbols as int, p1 as int),
 { unimplemented!() }
 ''', label='callee contracts')
